@@ -23,7 +23,7 @@ RULE = (
     "V3; 2 outputs L=2 (y_true V3^4, y_pred P2^4); scaled: y_train in V3^3 + P2^4 (2 outputs: "
     "4x4 column patterns incl. flat) x sp{1,2}; relative: benchmark over V / V3 / B2; "
     "horizon_weight {None, ones, (1,2,3), (3,1,1)}[:L]; multioutput {uniform_average, raw_values, "
-    "(0.3,0.7)}; symmetric, square_root, asymmetric threshold {0,-2,0.5} (hit exactly by errors with e^2 != |e|) x 4 left/right pairs, "
+    "(0.3,0.7), unnormalised (1,3)}; symmetric, square_root, asymmetric threshold {0,-2,0.5} (hit exactly by errors with e^2 != |e|) x 4 left/right pairs, "
     "relative_loss_function in 4 metrics. thorough: univariate L<=3 over V (L=3 with ones / "
     "(3,1,1) weights over V3) and L=4 over V3, 2 outputs over V3^4 x V3^4, all V3^3+V3^4 training "
     "series (2 outputs: V3^3 x 4 patterns), larger benchmark products. The scale law is "
@@ -65,7 +65,7 @@ ALPH = {
 }
 PAT4 = [[-1.0, 0.0, 2.0], [2.0, 2.0, 2.0], [0.0, 2.0, 0.0], [2.0, -1.0, -1.0]]
 CONT = ["np", "list", "pd", "np", "list"]  # cycle length coprime with the 16 workers
-MO3 = ["uniform_average", "raw_values", [0.3, 0.7]]
+MO3 = ["uniform_average", "raw_values", [0.3, 0.7], [1.0, 3.0]]
 HW = {
     1: [None, [1], [3]],
     2: [None, [1, 1], [1, 2], [3, 1]],
